@@ -141,22 +141,23 @@ def r2_dedup(ctx):
     helper = None
     for qn, sites in writers.items():
         f = sites[0][0]
-        # the guarded shape
+        # the guarded shape: on every path that appends, the path condition says that no element with the same encoding exists
         p = f.params[1] if len(f.params) > 1 else None
-        body = docstring_free(f.body)
-        ok = False
-        if p and len(body) >= 2 and isinstance(body[0], ast.For) and src(body[0].iter) == 'self.decorations' \
-                and isinstance(body[0].target, ast.Name):
-            v = body[0].target.id
-            lb = body[0].body
-            if len(lb) == 1 and isinstance(lb[0], ast.If) and not lb[0].orelse and len(lb[0].body) == 1 \
-                    and isinstance(lb[0].body[0], ast.Return):
-                fm = G._formula(lb[0].test)
-                want = G._cmp_atom(ast.parse(f'{v}.encoding', mode='eval').body, ast.Eq(), ast.parse(f'{p}.encoding', mode='eval').body)
-                ok = fm == want
-            rest = body[1:]
-            ok = ok and len(sites) == 1 and len(rest) == 1 and isinstance(rest[0], ast.Expr) and rest[0].value is sites[0][1] \
-                and sites[0][1].func.attr == 'append' and len(sites[0][1].args) == 1 and F.is_name(sites[0][1].args[0], p)
+        ok = bool(p) and len(sites) == 1
+        if ok:
+            want = f'any({p}.encoding == _v0.encoding for _v0 in self.decorations)'
+            alt = f'any(_v0.encoding == {p}.encoding for _v0 in self.decorations)'
+            n_app = 0
+            for sp in symex.func_sym_paths(f):
+                apps = [e for e in sp.events if e.kind == 'expr' and isinstance(e.expr, ast.Call) and src(e.expr.func) == 'self.decorations.append']
+                if not apps:
+                    continue
+                n_app += 1
+                fm = sp.condition()
+                guard = [a_ for a_ in G.atoms_of(fm) if a_ in (want, alt)]
+                ok = ok and len(apps) == 1 and len(apps[0].expr.args) == 1 and F.is_name(apps[0].expr.args[0], p) \
+                    and len(guard) == 1 and F.forced(fm, guard[0], False)
+            ok = ok and n_app >= 1
         if ok:
             helper = f
         ctx.check(ok, 'R2', f.loc, f.qualname, 'unguarded-decoration-append',
@@ -272,15 +273,21 @@ def r3_export_order(ctx, g, flows=None, rule='R3'):
     ctx.expect_count(rule, 'sorted pitch/duration joins', len(pd), 1)
     # listener builds the duration sub-tokens in grammar order
     ed = ctx.prog.func(f'{LST}.exitDuration')
-    order = []
-    for n in sorted([x for x in walk_local(ed.node) if isinstance(x, ast.Call) and isinstance(x.func, ast.Attribute)
-                     and src(x.func.value) == 'ctx' and x.func.attr in ('modernDuration', 'augmentationDot', 'graceNote', 'appoggiatura')],
-                    key=lambda x: (x.lineno, x.col_offset)):
-        if n.func.attr not in order:
-            order.append(n.func.attr)
-    ctx.check(order[:2] == ['modernDuration', 'augmentationDot'] and set(order[2:]) == {'graceNote', 'appoggiatura'}, rule, ed.loc,
+    orders = set()
+    for cond, items, sp in F.list_content(ed, 'self.duration_subtokens'):
+        order = []
+        for it in items:
+            text = ' '.join(src(x) for x in it[1:] if isinstance(x, ast.AST))
+            hit = [k for k in ('modernDuration', 'augmentationDot', 'graceNote', 'appoggiatura') if f'ctx.{k}()' in text]
+            order.append(hit[0] if len(hit) == 1 else f'?{text[:30]}')
+        orders.add(tuple(order))
+    okl = bool(orders)
+    for order in orders:
+        ranks = [{'modernDuration': 0, 'augmentationDot': 1, 'graceNote': 2, 'appoggiatura': 2}.get(k, -1) for k in order]
+        okl = okl and -1 not in ranks and ranks == sorted(ranks) and ranks[:2] == [0, 1]
+    ctx.check(okl, rule, ed.loc,
               ed.qualname, 'listener-duration-order', 'exitDuration builds number, dots, grace/appoggiatura in grammar order',
-              f'exitDuration reads {order}')
+              f'exitDuration reads {sorted(orders)[-1] if orders else None}')
     # signifiers after the pitch part
     ok_after = True
     n_with_deco = 0
